@@ -3,8 +3,12 @@ import Driver.Util
 namespace Driver.C02
 open Paloma.Oracle
 
+/-- the harness fixture activates its chain with compass id "compass-1" before the first op
+(`ActivateChainReferenceID` → the skyway keeper's `EVMActivatedChain` subscriber) -/
+def fixtureInit : St := activate St.init 1
+
 structure State where
-  s : St := St.init
+  s : St := fixtureInit
 
 def init : State := {}
 
@@ -19,7 +23,7 @@ def showState (d : State) : String :=
   let as := sortAtts s.atts
   let aS := if as.isEmpty then "-" else ";".intercalate (as.map fun a =>
     s!"{a.nonce}:{a.hash}:" ++ ".".intercalate (a.votes.map toString) ++ s!":{if a.observed then 1 else 0}")
-  s!"last={s.lastObserved} eth={s.lastEth} nonces={nonces} atts={aS} minted={s.minted}"
+  s!"last={s.lastObserved} eth={s.lastEth} nonces={nonces} atts={aS} minted={s.minted} dep={s.compassId}"
 
 /-- `endblock <powers> <total> [<nonce>:<hash>,… | -]`: the last field lists the attestations whose
     observation event cannot be emitted in this block (collaborator fault). `<powers>` is the whole
@@ -40,18 +44,24 @@ def endblock (d : State) (kind ps total faults : String) : State × String :=
 def step (d : State) (args : List String) : State × String :=
   match args with
   | ["reset"] => (init, "ok")
-  | ["vote", v, n, h, eth, appl, amt] =>
-    match parseNat? v, parseNat? n, parseNat? h, parseNat? eth, parseNat? appl, parseNat? amt with
-    | some v, some n, some h, some eth, some appl, some amt =>
-      let (s', r) := vote d.s v n h eth (appl != 0) amt
+  -- `vote <validator> <nonce> <hash> <remote height> <applicable> <amount> <compass id of the claim>`
+  | ["vote", v, n, h, eth, appl, amt, cp] =>
+    match parseNat? v, parseNat? n, parseNat? h, parseNat? eth, parseNat? appl, parseNat? amt, parseNat? cp with
+    | some v, some n, some h, some eth, some appl, some amt, some cp =>
+      let (s', r) := vote d.s v n h eth (appl != 0) amt cp
       let d' := { d with s := s' }
       ((d'), (if r == .ok then "ok " else "rejected ") ++ showState d')
-    | _, _, _, _, _, _ => (d, "bad-op")
+    | _, _, _, _, _, _, _ => (d, "bad-op")
   | [kind, ps, total] => endblock d kind ps total "-"
   | [kind, ps, total, faults] => endblock d kind ps total faults
   | ["override", n] =>
     match parseNat? n with
     | some n => let d' := { d with s := override d.s n }; (d', showState d')
+    | none => (d, "bad-op")
+  -- chain activation / bridge re-deployment with compass id "compass-<c>"
+  | ["activate", c] =>
+    match parseNat? c with
+    | some c => let d' := { d with s := activate d.s c }; (d', showState d')
     | none => (d, "bad-op")
   | _ => (d, "bad-op")
 
